@@ -9,7 +9,9 @@
  * the model's view of the environment.  In replay mode the annotation of the input is ignored and
  * recomputed into <eff-ops>, so that delta-debugged op lists stay consistent.
  *
- * env: VERIF_GROUP=1        side stream: add_commit with the GROUP flags
+ * env: VERIF_GROUP=1             add_commit with the GROUP flags is generated; with flag GROUP the dumps before / after the commit are
+ *                               given to the model, which PREDICTS the inserted Groups (default accuracy only)
+ *      VERIF_GROUP_CRASHONLY=1  the environment holds a non-default HWLOC_GROUPING_ACCURACY: nothing is predicted (crash-only stream)
  * No input class is excluded: add_values with objs[0]==NULL (former F03), MERGE_SWITCH_PORTS with non-ports
  * after the first port (former F12), GROUP flags after dup (former F17/F27) and kind 0 + XML (former F18/F29)
  * are all generated (buckets values_null0 / tr_merge_mixed in the statistics).
@@ -25,6 +27,7 @@
 #include <sys/syscall.h>
 #include <stdarg.h>
 #include <errno.h>
+#include "dump.h"
 
 #define NS 8
 #define NH 4
@@ -34,6 +37,7 @@ static struct hwloc_distances_s *slots[NS];
 static int stale[NS];
 static FILE *fops, *fout;
 static int inc_f03, inc_f12, inc_group_env, inc_dupgroup;
+static int group_crashonly;   /* VERIF_GROUP_CRASHONLY=1: non-default accuracies in the environment, GROUP commits are not predicted */
 static int dupped;   /* current topology comes from hwloc_topology_dup: its grouping_* fields are uninitialised (finding F17) */
 
 static const char *synth[] = {
@@ -43,11 +47,16 @@ static const char *synth[] = {
   "pack:3 core:3 pu:1",
   "numa:3 l2:2 pu:2",
   "pack:2 l3:2 core:2 pu:2",
+  /* flat levels wider than the block sizes of gen_block: grouping creates NEW Groups, in several nested rounds */
+  "core:12 pu:1",
+  "pack:2 l2:6 pu:1",
+  "numa:3 core:4 pu:1",
 };
 #define NSYNTH (sizeof(synth)/sizeof(*synth))
 
+static void bump(const char *name);
 /* ---- annotation buffer ---- */
-static char ann[65536]; static size_t annlen;
+static char ann[1 << 20]; static size_t annlen;
 static void ann_reset(void) { annlen = 0; ann[0] = 0; }
 static void ann_add(const char *fmt, ...) {
   va_list ap; va_start(ap, fmt);
@@ -140,8 +149,38 @@ static void finish_get(int rc, unsigned slot0, unsigned cap, unsigned nr, struct
   fputc('\n', fout);
 }
 
+/* ---- GROUP commits: dumps before/after + the Groups that appeared ---- */
+static void cb_maxgp(hwloc_obj_t o, unsigned i, void *arg) { (void) i; unsigned long long *m = arg; if (o->gp_index > *m) *m = o->gp_index; }
+static void cb_samesets(hwloc_obj_t o, unsigned i, void *arg) {
+  (void) i; int *ok = arg;
+  if (o->cpuset && (!o->complete_cpuset || !hwloc_bitmap_isequal(o->cpuset, o->complete_cpuset))) *ok = 0;
+}
+struct newgroups { hwloc_obj_t o[64]; unsigned n; unsigned long long maxgp; };
+static void cb_new(hwloc_obj_t o, unsigned i, void *arg) {
+  (void) i; struct newgroups *g = arg;
+  if (o->gp_index > g->maxgp && g->n < 64) g->o[g->n++] = o;
+}
+/* the dump as one line: lines separated by " ;; " */
+static char *dump_oneline(const char *tag) {
+  char *buf = NULL; size_t len = 0;
+  FILE *f = open_memstream(&buf, &len);
+  if (!f) return NULL;
+  dump_topology(f, topo, tag);
+  fclose(f);
+  size_t nl = 0;
+  for (size_t i = 0; i < len; i++) if (buf[i] == '\n') nl++;
+  char *out = malloc(len + 4 * nl + 1), *w = out;
+  for (size_t i = 0; i < len; i++) {
+    if (buf[i] == '\n') { memcpy(w, " ;; ", 4); w += 4; } else *w++ = buf[i];
+  }
+  *w = 0;
+  free(buf);
+  return out;
+}
+static unsigned long set_ulong(hwloc_const_bitmap_t b) { return b ? hwloc_bitmap_to_ulong(b) : 0UL; }
+
 /* ---- op execution (shared by generate and replay) ---- */
-#define MAXTOK 200
+#define MAXTOK 400
 static void exec_line(const char *bare) {
   char line[8192]; char *tok[MAXTOK]; int nt = 0; char *save = NULL;
   strncpy(line, bare, sizeof line - 1); line[sizeof line - 1] = 0;
@@ -277,10 +316,45 @@ static void exec_line(const char *bare) {
     unsigned h = U(1) % NH; unsigned long flags = UL(2);
     if (!handles[h]) fprintf(fout, "nohandle\n");
     else {
+      /* GROUP flag at the default accuracy: the inserted Groups are PREDICTED by the model from the dump taken before */
+      int predict = (flags & 1) && !group_crashonly;
+      char *bef = NULL; int same = 1; struct newgroups ng; ng.n = 0; ng.maxgp = 0;
+      if (predict) {
+        for_each_obj(topo, cb_samesets, &same);
+        for_each_obj(topo, cb_maxgp, &ng.maxgp);
+        if (same) bef = dump_oneline("B");
+      }
       int rc = hwloc_distances_add_commit(topo, handles[h], flags);
+      int e = errno;
       handles[h] = NULL;
-      if (rc < 0) fprintf(fout, "%s\n", errname());
-      else { if (flags & 3) ann_live(); fprintf(fout, "ok\n"); }
+      if (rc < 0) { errno = e; fprintf(fout, "%s\n", errname()); }
+      else {
+        if (flags & 3) ann_live();
+        if (predict && !(same && bef)) { ann_add(" ## P 0"); fprintf(fout, "ok U\n"); }
+        else if (predict) {
+          hwloc_topology_check(topo);      /* asserts are live: an abort is a violation */
+          char *aft = dump_oneline("A");
+          ann_add(" ## P 1 ## %s ## %s", bef, aft ? aft : "");
+          free(aft);
+          for_each_obj(topo, cb_new, &ng);
+          for (unsigned a = 0; a < ng.n; a++)            /* by gp_index = order of creation */
+            for (unsigned b = a + 1; b < ng.n; b++)
+              if (ng.o[b]->gp_index < ng.o[a]->gp_index) { hwloc_obj_t t = ng.o[a]; ng.o[a] = ng.o[b]; ng.o[b] = t; }
+          fprintf(fout, "ok");
+          for (unsigned a = 0; a < ng.n; a++) {
+            hwloc_obj_t g = ng.o[a];
+            if (g->type != HWLOC_OBJ_GROUP) fprintf(fout, " NOTGROUP:%d", (int) g->type);
+            else fprintf(fout, " G %lx %lx %u %u", set_ulong(g->cpuset), set_ulong(g->nodeset), g->attr->group.kind, g->attr->group.subkind);
+          }
+          fputc('\n', fout);
+          if (ng.n) bump("commit_group_created"); else bump("commit_group_none");
+          for (unsigned a = 1; a < ng.n; a++)
+            if (ng.o[a]->type == HWLOC_OBJ_GROUP && ng.o[0]->type == HWLOC_OBJ_GROUP
+                && ng.o[a]->attr->group.subkind != ng.o[0]->attr->group.subkind) { bump("commit_group_nested_rounds"); break; }
+        }
+        else fprintf(fout, "ok\n");
+      }
+      free(bef);
     }
   }
   else if ((!strcmp(op, "get") && nt == 5) || (!strcmp(op, "getd") && nt == 6) || (!strcmp(op, "gett") && nt == 6)) {
@@ -345,10 +419,10 @@ static void exec_line(const char *bare) {
 }
 
 /* ---- generator ---- */
-static struct { const char *name; unsigned long n; } stats[64]; static int nstats;
+static struct { const char *name; unsigned long n; } stats[96]; static int nstats;
 static void bump(const char *name) {
   for (int i = 0; i < nstats; i++) if (!strcmp(stats[i].name, name)) { stats[i].n++; return; }
-  if (nstats < 64) { stats[nstats].name = name; stats[nstats].n = 1; nstats++; }
+  if (nstats < 96) { stats[nstats].name = name; stats[nstats].n = 1; nstats++; }
 }
 static void emit(const char *fmt, ...) {
   char buf[8192]; va_list ap; va_start(ap, fmt); vsnprintf(buf, sizeof buf, fmt, ap); va_end(ap);
@@ -469,8 +543,47 @@ static unsigned long gen_commit_flags(void) {
   unsigned long flags = 0;
   int inc_group = (dupped && !inc_dupgroup) ? 0 : (inc_group_env);
   if (rng_chance(6)) flags = (rng_chance(50) ? 4UL : 8UL << rng_below(20)) | (inc_group ? rng_below(4) : 0);
-  else if (inc_group && rng_chance(50)) flags = 1 + rng_below(3);
+  else if (inc_group && rng_chance(group_crashonly ? 50 : 12)) flags = 1 + rng_below(3);
   return flags;
+}
+
+/* create + values + commit(GROUP) with a block-structured matrix over one level: 2-3 nested block sizes, the blocks following the
+ * logical indexes (laminar with the tree when the sizes fit its arities, cutting it otherwise) or the positions, plus perturbations
+ * (asymmetric cell, extra minimal edges that chain blocks, bad diagonal, huge values, all-equal) and non-groupable kinds */
+static void gen_block(unsigned h) {
+  int t = HWLOC_OBJ_PU; unsigned nb = 0;
+  for (int tries = 0; tries < 8; tries++) { t = present_type(); nb = hwloc_get_nbobjs_by_type(topo, (hwloc_obj_type_t) t); if (nb >= 3) break; }
+  if (nb < 3) { t = HWLOC_OBJ_PU; nb = hwloc_get_nbobjs_by_type(topo, HWLOC_OBJ_PU); }
+  if (nb < 3) return;
+  unsigned n = nb < 12 ? nb : 12;
+  if (rng_chance(25)) n = 3 + rng_below(n - 2);
+  unsigned idx[12], off = nb > n ? rng_below(nb - n + 1) : 0, sel = rng_below(100);
+  for (unsigned i = 0; i < n; i++) idx[i] = off + i;
+  if (sel >= 60 && sel < 85) { for (unsigned i = n - 1; i > 0; i--) { unsigned j = rng_below(i + 1), x = idx[i]; idx[i] = idx[j]; idx[j] = x; } }
+  else if (sel >= 85) { for (unsigned i = 0; i < n; i++) idx[i] = rng_below(nb); }
+  unsigned b1 = 2 + rng_below(2), b2 = b1 * (2 + rng_below(2)), bypos = rng_chance(30);
+  unsigned long long v0 = rng_chance(70) ? 0 : rng_below(4), v1 = v0 + 1 + rng_below(10), v2 = v1 + 1 + rng_below(10), v3 = v2 + 1 + rng_below(10);
+  unsigned p = rng_below(100);
+  if (p >= 18 && p < 22) { v2 = (1ULL << 63) + rng_below(1000); v3 = ~0ULL - rng_below(1000); }
+  if (p >= 22 && p < 26) { v2 = v3 = v1; }
+  if (p >= 26 && p < 31) { unsigned long long x = v1; v1 = v3; v3 = x; }
+  unsigned long long m[144];
+  for (unsigned i = 0; i < n; i++) for (unsigned j = 0; j < n; j++) {
+    unsigned a = bypos ? i : idx[i], b = bypos ? j : idx[j];
+    m[i * n + j] = i == j ? v0 : a / b1 == b / b1 ? v1 : a / b2 == b / b2 ? v2 : v3;
+  }
+  if (p < 8) { unsigned i = rng_below(n), j = rng_below(n); if (i != j) m[i * n + j] = rng_chance(50) ? v1 : m[i * n + j] + 1; }
+  else if (p < 14) { for (unsigned r = 1 + rng_below(3); r > 0; r--) { unsigned i = rng_below(n), j = rng_below(n); if (i != j) m[i * n + j] = m[j * n + i] = v1; } }
+  else if (p < 18) { unsigned i = rng_below(n); m[i * n + i] = rng_chance(50) ? v1 : v3; }
+  unsigned k = rng_below(100);
+  unsigned long kind = k < 70 ? (rng_chance(50) ? 5 : 6) : k < 80 ? (rng_chance(50) ? 33 : 34) : k < 90 ? (rng_chance(50) ? 9 : 10) : (rng_chance(50) ? 4 : 1);
+  emit("create %u %s %lu 0", h, names[rng_below(6)], kind); bump("create");
+  char buf[8192]; size_t l = 0;
+  l += snprintf(buf + l, sizeof buf - l, "values %u 0 %u", h, n);
+  for (unsigned i = 0; i < n; i++) l += snprintf(buf + l, sizeof buf - l, " %d.%u", t, idx[i]);
+  for (unsigned i = 0; i < n * n; i++) l += snprintf(buf + l, sizeof buf - l, " %llu", m[i]);
+  exec_line(buf); bump("values"); bump("values_block");
+  emit("commit %u %lu", h, rng_chance(60) ? 1UL : 3UL); bump("commit"); bump("commit_block");
 }
 static unsigned live_handle(void) {
   unsigned h = rng_below(NH);
@@ -480,7 +593,8 @@ static unsigned live_handle(void) {
 
 static void gen_one(void) {
   unsigned r = rng_below(1000);
-  if (r < 220) {
+  if (r < 220 && inc_group_env && !(dupped && !inc_dupgroup) && rng_chance(group_crashonly ? 30 : 14)) gen_block(rng_below(NH));
+  else if (r < 220) {
     /* the documented sequence, mostly valid */
     unsigned h = rng_below(NH);
     unsigned long kind = rng_chance(85) ? goodkinds[rng_below(sizeof goodkinds / sizeof *goodkinds)] : gen_kind();
@@ -522,8 +636,8 @@ static void gen_one(void) {
     else { mode = 'n'; flags = rng_chance(60) ? 16 : 0; mask &= 0xf; if (rng_chance(50)) mask |= (unsigned long) rng_next() & 0xf; }
     emit("restrict %c %lx %lu", mode, mask & 0xffffffffUL, flags); bump("restrict");
   }
-  else if (r < 968) { emit("refresh"); bump("refresh"); }
-  else if (r < 965) { emit("dup"); bump("dup"); }
+  else if (r < 963) { emit("refresh"); bump("refresh"); }
+  else if (r < 968) { emit("dup"); bump("dup"); }      /* (was unreachable behind the refresh branch) */
   else if (r < 980) { emit("shm"); bump("shm"); }
   else { emit("xml"); bump("xml"); }
 }
@@ -531,6 +645,7 @@ static void gen_one(void) {
 int main(int argc, char **argv) {
   inc_f03 = inc_f12 = 1;   /* former defect classes F03 / F12 (fixed in /repo): ordinary inputs now */
   inc_group_env = getenv("VERIF_GROUP") && atoi(getenv("VERIF_GROUP"));
+  group_crashonly = getenv("VERIF_GROUP_CRASHONLY") && atoi(getenv("VERIF_GROUP_CRASHONLY"));
   inc_dupgroup = 1;        /* former finding F17/F27 (fixed): GROUP flags are also used on a duplicated topology */
   if (argc >= 5 && !strcmp(argv[1], "--replay")) {
     FILE *in = fopen(argv[2], "r"); fout = fopen(argv[3], "w"); fops = fopen(argv[4], "w");
